@@ -165,6 +165,8 @@ def _short_ty(ty):
     return ty
 
 
+_CONVERSIONS = ('deref', 'deref_mut', 'as_ref', 'as_mut', 'borrow', 'borrow_mut', 'branch', 'into', 'from', 'to_owned', 'clone', 'to_path_buf', 'as_slice', 'as_str', 'must_use',
+                'as_path', 'as_os_str', 'as_mut_slice', 'as_deref', 'into_boxed_path', 'into_path_buf', 'as_mut_str')
 HELPER_RESULT = None      # hook (siteguard): description of the value a helper that did not exist in the confirmed tree returns, or None
 PHI = False        # set only while the frozen-skeleton tables are collected (siteguard): excuse-table keys never contain phi(..)
 ALIASES = {}      # short callee name -> canonical role name (set by the check driver from roles.aliases)
@@ -208,7 +210,10 @@ def sdesc_place(B, p, depth=0):
     if len(p['p']) >= 2 and p['p'][0]['k'] == 'downcast' and p['p'][0]['variant'] in ('Continue', 'Ok') and p['p'][1]['k'] == 'field':
         ds = B.whole_defs(p['l'])
         if p['p'][0]['variant'] == 'Continue' and len(ds) == 1 and ds[0][0] == 'call' and (ds[0][3].get('callee') or '').endswith('Try::branch'):
-            base = sdesc_operand(B, ds[0][3]['args'][0], depth) + '?'
+            if PHI and (callee_of(ds[0][3]) or '').startswith('<std::option::Option<T> as std::ops::Try>'):
+                base = sdesc_operand(B, ds[0][3]['args'][0], depth) + ' as Some.0'          # `x?` on an Option is the payload `if let Some(v) = x` binds
+            else:
+                base = sdesc_operand(B, ds[0][3]['args'][0], depth) + '?'
         else:
             base = sdesc_local(B, p['l'], depth) + '?'
         s = base
@@ -252,9 +257,17 @@ def sdesc_local(B, l, depth=0):
             c = _short(t.get('callee') or callee_of(t) or '?')
             if c.startswith('box_assume_init_into_vec'):
                 return 'vec!'
-            if c in ('deref', 'deref_mut', 'as_ref', 'as_mut', 'borrow', 'borrow_mut', 'branch', 'into', 'from', 'to_owned', 'clone', 'to_path_buf', 'as_slice', 'as_str', 'must_use',
-                     'as_path', 'as_os_str', 'as_mut_slice', 'as_deref', 'into_boxed_path', 'into_path_buf', 'as_mut_str') and t['args']:
+            if c in _CONVERSIONS and t['args']:
                 return sdesc_operand(B, t['args'][0], depth)
+            if PHI and t['args'] and len(t['args']) <= 2:
+                # x.unwrap() / x.expect(..) / x.unwrap_err() are the payload of x (the same value `if let` / `match` bind)
+                full = t.get('callee') or ''
+                if full in ('<std::option::Option<T>>::unwrap', '<std::option::Option<T>>::expect'):
+                    return sdesc_operand(B, t['args'][0], depth) + ' as Some.0'
+                if full in ('<std::result::Result<T, E>>::unwrap', '<std::result::Result<T, E>>::expect'):
+                    return sdesc_operand(B, t['args'][0], depth) + '?'
+                if full in ('<std::result::Result<T, E>>::unwrap_err', '<std::result::Result<T, E>>::expect_err'):
+                    return sdesc_operand(B, t['args'][0], depth) + ' as Err.0'
             if PHI and HELPER_RESULT is not None:
                 r = HELPER_RESULT(t, [sdesc_operand(B, a, depth + 1) for a in t['args']])
                 if r is not None:
@@ -267,7 +280,11 @@ def sdesc_local(B, l, depth=0):
         for d in ds:
             if d[0] == 'call':
                 t = d[3]
-                alts.add('%s(%s)' % (_short(t.get('callee') or callee_of(t) or '?'), ','.join(sdesc_operand(B, a, depth + 3) for a in t['args'][:3])))
+                cs = _short(t.get('callee') or callee_of(t) or '?')
+                if cs in _CONVERSIONS and t['args']:
+                    alts.add(sdesc_operand(B, t['args'][0], depth + 3))
+                else:
+                    alts.add('%s(%s)' % (cs, ','.join(sdesc_operand(B, a, depth + 3) for a in t['args'][:3])))
             else:
                 alts.add(sdesc_rv(B, d[4], depth + 3))
         return 'phi(%s)' % '|'.join(sorted(alts))
